@@ -24,7 +24,8 @@ def model_names(tier):
   base = [
       "linear-plain", "linear-bounds", "linear-outcalib",
       "lattice-hypercube", "lattice-simplex-bounds", "lattice-outcalib", "lattice-kfl", "lattice-kfl-bounds",
-      "ens-explicit-avg", "ens-explicit-lincomb-bounds", "ens-random-shared", "ens-rtl", "ens-rtl-kfl-outcalib",
+      "ens-explicit-avg", "ens-explicit-lincomb-bounds", "ens-explicit-lincomb-maxonly", "ens-random-shared",
+      "ens-rtl", "ens-rtl-kfl-outcalib",
       "stack-lattice", "stack-linear",
   ]
   if tier != "quick":
@@ -124,6 +125,9 @@ def build(name, seed=7):
       lo, hi = 0.0, 1.0
       kw.update(lattices=[["a", "b"], ["u", "c"], ["b", "c"]], use_linear_combination=True, output_min=lo,
                 output_max=hi)
+    elif name == "ens-explicit-lincomb-maxonly":
+      hi = 1.0
+      kw.update(lattices=[["a", "b"], ["u", "c"], ["a", "c"]], use_linear_combination=True, output_max=hi)
     elif name == "ens-explicit-kfl":
       kw.update(lattices=[["a", "b"], ["u", "c"], ["a", "c"]], parameterization="kronecker_factored")
     elif name == "ens-random-shared":
